@@ -32,13 +32,17 @@ def iter_places(x):
 
 
 def place_uses(fn):
-    """All places mentioned by a function: (bb, place, role, mac) with role in def|use|term|callarg|calldest."""
+    """All places mentioned by a function: (bb, place, role, mac) with role in def|use|mutref|term|callarg|calldest."""
     for bb, si, s in fn.statements():
         mac = s[4] if len(s) > 4 and isinstance(s[4], list) else []
         if s[0] in ("=", "setdiscr"):
             yield bb, s[1], "def", mac
             if s[0] == "=":
-                for p in iter_places(s[2]):
+                rv = s[2]
+                if rv[0] in ("ref", "rawptr") and str(rv[1]).lower() in ("mut", "two_phase_mut", "twophasemut") and _is_place(rv[2]):
+                    yield bb, rv[2], "mutref", mac
+                    continue
+                for p in iter_places(rv):
                     yield bb, p, "use", mac
     for bb, b in enumerate(fn.blocks):
         if b.get("cleanup"):
